@@ -303,7 +303,7 @@ pub fn run(run: &Run) {
     // Soes: all ordered lists
     for k in 0..=4usize {
         let nterms = 1u64 << (k + 1);
-        let maxlen: u32 = if k <= 3 { if run.thorough() { 4 } else { 3 } } else { if run.thorough() { 3 } else { 2 } };
+        let maxlen: u32 = if k <= 2 { 4 } else if k == 3 { if run.thorough() { 4 } else { 3 } } else { if run.thorough() { 3 } else { 2 } };
         let mut total = 0u64;
         let mut offs = Vec::new();
         for len in 0..=maxlen {
@@ -327,6 +327,38 @@ pub fn run(run: &Run) {
                 if idx == total / 2 {
                     l.sample(J::s(format!("kind=soes;n={};a={};b={}", k, join(&a), join(&b))));
                 }
+            }
+        });
+    }
+    for k in 0..=3usize {
+        let nterms = 1u32 << (k + 1);
+        let maxlen = match (k, run.thorough()) {
+            (0, _) | (1, _) => 3,
+            (2, true) => 3,
+            (2, false) => 2,
+            (_, true) => 2,
+            (_, false) => 1,
+        };
+        let mut lists: Vec<Vec<u32>> = vec![vec![]];
+        let mut frontier: Vec<Vec<u32>> = vec![vec![]];
+        for _ in 0..maxlen {
+            let mut next = Vec::new();
+            for f in &frontier {
+                for t in 0..nterms {
+                    let mut g = f.clone();
+                    g.push(t);
+                    next.push(g);
+                }
+            }
+            lists.extend(next.iter().cloned());
+            frontier = next;
+        }
+        let m = lists.len() as u64;
+        run.section(&format!("SOES n={}: all ordered PAIRS of term lists of length <= {} ({} x {} pairs): a | b", k, maxlen, m, m), true, "complete cross product of the ordered lists: every list meets every partner", m * m, 256, |r, l| {
+            for idx in r {
+                let (a, b) = (&lists[(idx / m) as usize], &lists[(idx % m) as usize]);
+                l.states += 1;
+                rec(l, check_soes(k, a, b), format!("soes|{}|{}|{}", k, join(a), join(b)), "soes", format!("kind=soes;n={};a={};b={}", k, join(a), join(b)), !a.is_empty() && !b.is_empty(), idx);
             }
         });
     }
